@@ -15,7 +15,7 @@ def liveFor (t : T) : Option Queuer → Prop
 @[simp] theorem liveFor_some (t : T) (q : Queuer) : liveFor t (some q) = (q.t = t ∧ q.building = true ∧ q.ph ≠ .done) := rfl
 
 structure Inv3 (s : St) : Prop where
-  activeHasQueuer : ∀ t, s.st t = .active → liveFor t (s.qs (s.bq t))
+  activeHasQueuer : s.stopped = false → ∀ t, s.st t = .active → liveFor t (s.qs (s.bq t))
   pendingHasToken : s.stopped = false → ∀ t, s.st t = .pending →
       s.chan (s.tm t) = some t ∨ s.ws (s.wk t) = some ⟨t, .taken⟩
   buildingHasWorker : ∀ t, s.st t = .building → s.ws (s.wk t) = some ⟨t, .building⟩
@@ -34,7 +34,7 @@ macro "inv3_close" hi:ident : tactic =>
       | exact ($hi).chanIdx | exact ($hi).takenIdx | exact ($hi).buildingNeeds | exact ($hi).queuedDeps | exact ($hi).waitedDeps | exact ($hi).waitSub
       | (intros; have := ($hi).activeHasQueuer; have := ($hi).pendingHasToken; have := ($hi).buildingHasWorker
          have := ($hi).chanIdx; have := ($hi).takenIdx; have := ($hi).buildingNeeds; have := ($hi).queuedDeps; have := ($hi).waitedDeps; have := ($hi).waitSub
-         simp only [upd, Queuer.live] at *; grind [TS.rank, liveFor])))
+         simp only [upd, Queuer.live] at * <;> grind [TS.rank, liveFor])))
 
 /-- like `inv3_close`, with the clauses of `Inv` at hand too -/
 macro "inv3_close2" hi:ident h1:ident : tactic =>
@@ -44,7 +44,7 @@ macro "inv3_close2" hi:ident h1:ident : tactic =>
       | (intros; have := ($hi).activeHasQueuer; have := ($hi).pendingHasToken; have := ($hi).buildingHasWorker
          have := ($hi).chanIdx; have := ($hi).takenIdx; have := ($hi).buildingNeeds; have := ($hi).queuedDeps; have := ($hi).waitedDeps; have := ($hi).waitSub
          have := ($h1).qFresh; have := ($h1).mFresh; have := ($h1).wFresh; have := ($h1).waitBuilding; have := ($h1).bqActive; have := ($h1).bqUnique; have := ($h1).bqWait; have := ($h1).chanPending; have := ($h1).chanUnique; have := ($h1).takenPending; have := ($h1).takenUnique; have := ($h1).chanTaken; have := ($h1).wBuilding; have := ($h1).wBuildingUnique; have := ($h1).notStopped; have := ($h1).finTerm
-         simp only [upd, Queuer.live] at *; grind [TS.rank, TS.terminal, TS.isBuilt, TS.isBad, liveFor])))
+         simp only [upd, Queuer.live] at * <;> grind [TS.rank, TS.terminal, TS.isBuilt, TS.isBad, liveFor])))
 
 theorem inv3_init : Inv3 c St.init := by
   constructor <;> simp [St.init]
@@ -93,8 +93,8 @@ theorem inv3_advance_queue {s1 : St} (h3 : Inv3 c s1) (i : Nat) (q : Queuer) (d 
     (hact : q.building = true → TS.active.rank ≤ (s1.st d).rank) :
     Inv3 c { s1 with qs := upd s1.qs i (some { q with ph := .queueDeps r }) } := by
   constructor
-  · intro t ht
-    have h := h3.activeHasQueuer t ht
+  · intro hst t ht
+    have h := h3.activeHasQueuer hst t ht
     show liveFor t (upd s1.qs i _ (s1.bq t))
     by_cases e : s1.bq t = i
     · rw [e, upd_same]; rw [e, hq1] at h
@@ -213,6 +213,13 @@ theorem step_inv3 {s s' : St} (h1 : Inv c s) (hi : Inv3 c s) (h : Step c s s') :
     simp only [fire] at h
     split at h
     · rename_i q hq; exact inv3_queuer c h1 hi i q hq h
+    · cases h
+  | queuerAbort i =>
+    simp only [fire] at h
+    split at h
+    · split at h
+      · cases h; inv3_close2 hi h1
+      · cases h
     · cases h
   | take m => exact inv3_take c h1 hi m h
   | drop m => exact inv3_drop c h1 hi m h
@@ -343,6 +350,13 @@ theorem step_acct {s s' : St} (h1 : Inv c s) (ha : Acct s) (h : Step c s s') : A
         have := ha hs
         simp only [units, ind] at *
         omega
+    · cases h
+  | queuerAbort i =>
+    simp only [fire] at h
+    split at h
+    · split at h
+      · cases h; intro hs; cases hs
+      · cases h
     · cases h
   | take m =>
     simp only [fire] at h
